@@ -17,6 +17,9 @@ def main() -> int:
     args = ap.parse_args()
     seed = int(os.environ.get("VERIF_SEED", "0") or 0)
     check = Check(args.pid, args.tier, seed)
+    from sr import symreal
+
+    symreal.XCHECK["every"] = 40 if args.tier == "thorough" else (400 if os.environ.get("VERIF_XCHECK", "1") != "0" else 0)
     mod = importlib.import_module(f"harness.{args.pid.lower()}")
     try:
         mod.run(check)
